@@ -2,7 +2,11 @@ package props
 
 import (
 	"fmt"
+	"go/ast"
+	"go/constant"
 	"go/token"
+	"go/types"
+	"sort"
 	"strings"
 
 	"gcv/internal/an"
@@ -115,7 +119,283 @@ func checkC02(r *core.Run) {
 	}
 	c02BIP143(r, p)
 	c02BIP341(r, p)
+	c02LeafHash(r, p)
+	c02Tags(r, p)
 	c02Legacy(r, p)
+}
+
+// c02Tags: the tagged hashers. hash_tags[HASHER_X] is the BIP340/341 tag of X, the midstate of each is
+// SHA256 fed with SHA256(tag) twice, and slot i of the midstate table is built from tag i.
+func c02Tags(r *core.Run, p *core.Program) {
+	const rule = "R-C02-bip341"
+	pk := p.Pkg("lib/btc")
+	if pk == nil {
+		r.Fail(rule, "tags", "-", "lib/btc not loaded")
+		return
+	}
+	var tags []string
+	for _, f := range pk.Syntax {
+		ast.Inspect(f, func(n ast.Node) bool {
+			vs, ok := n.(*ast.ValueSpec)
+			if !ok || len(vs.Names) != 1 || vs.Names[0].Name != "hash_tags" || len(vs.Values) != 1 {
+				return true
+			}
+			if cl, ok := vs.Values[0].(*ast.CompositeLit); ok {
+				for _, e := range cl.Elts {
+					if tv, ok := pk.TypesInfo.Types[e]; ok && tv.Value != nil && tv.Value.Kind() == constant.String {
+						tags = append(tags, constant.StringVal(tv.Value))
+					} else {
+						tags = append(tags, "?")
+					}
+				}
+			}
+			return true
+		})
+	}
+	want := map[string]string{"HASHER_TAPSIGHASH": "TapSighash", "HASHER_TAPLEAF": "TapLeaf", "HASHER_TAPBRANCH": "TapBranch", "HASHER_TAPTWEAK": "TapTweak"}
+	var bad []string
+	for cn, tag := range want {
+		v := c02ConstVal(p, "lib/btc", cn)
+		var idx int
+		if _, err := fmt.Sscan(v, &idx); err != nil || idx < 0 || idx >= len(tags) || tags[idx] != tag {
+			bad = append(bad, fmt.Sprintf("%s=%s selects %q, BIP341 tag is %q", cn, v, func() string {
+				if idx >= 0 && idx < len(tags) {
+					return tags[idx]
+				}
+				return "nothing"
+			}(), tag))
+		}
+	}
+	sort.Strings(bad)
+	r.Check(len(bad) == 0 && len(tags) == 4, rule, "tags/table", "-", "TapSighash, TapLeaf, TapBranch, TapTweak selected by their constants", strings.Join(bad, "; "))
+	// _TaggedHash: Write(tag) Sum Reset Write(h) Write(h)
+	th := p.Func("lib/btc._TaggedHash")
+	okTH := false
+	if th != nil {
+		var seq []string
+		for _, b := range th.Blocks {
+			for _, ins := range b.Instrs {
+				if c, ok := ins.(*ssa.Call); ok && c.Call.IsInvoke() {
+					a := ""
+					if len(c.Call.Args) > 0 {
+						a = an.Expr(c.Call.Args[0])
+					}
+					seq = append(seq, c.Call.Method.Name()+"("+a+")")
+				}
+			}
+		}
+		got := strings.Join(seq, " ")
+		okTH = len(seq) == 5 && seq[0] == "Write([]byte(param#0))" && seq[1] == "Sum(nil)" && seq[2] == "Reset()" && seq[3] == seq[4] && strings.HasPrefix(seq[3], "Write(") && strings.Contains(seq[3], "Sum(")
+		if !okTH {
+			r.Fail(rule, "tags/midstate", p.Pos(th.Pos()), "the tagged hasher is built as ["+got+"], BIP340 defines SHA256(SHA256(tag) || SHA256(tag) || ...)")
+		}
+	}
+	if okTH {
+		r.OK(rule, "tags/midstate", p.Pos(th.Pos()), "SHA256 state after SHA256(tag) || SHA256(tag)")
+	} else if th == nil {
+		r.Fail(rule, "tags/midstate", "-", "_TaggedHash not found")
+	}
+	// the table is filled slot i from tag i, and Hasher(i) restores slot i
+	okFill, okGet := false, false
+	if in := p.Func("lib/btc.init"); in != nil {
+		for _, f := range append([]*ssa.Function{in}, c02InitFuncs(p)...) {
+			an.Instrs(f, func(i ssa.Instruction) {
+				if st, ok := i.(*ssa.Store); ok {
+					ad := an.Expr(st.Addr)
+					if strings.HasPrefix(ad, "&lib/btc.hashers[") {
+						idx := ad[strings.Index(ad, "[")+1 : strings.LastIndex(ad, "]")]
+						v := an.Expr(st.Val)
+						if strings.Contains(v, "lib/btc._TaggedHash(lib/btc.hash_tags["+idx+"])") {
+							okFill = true
+						}
+					}
+				}
+			})
+		}
+	}
+	if h := p.Func("lib/btc.Hasher"); h != nil {
+		an.Instrs(h, func(i ssa.Instruction) {
+			if c, ok := i.(*ssa.Call); ok && c.Call.IsInvoke() && c.Call.Method.Name() == "UnmarshalBinary" {
+				if an.Expr(c.Call.Args[0]) == "lib/btc.hashers[param#0]" {
+					okGet = true
+				}
+			}
+		})
+	}
+	r.Check(okFill && okGet, rule, "tags/slots", "-", "slot i holds the midstate of tag i and Hasher(i) restores slot i", fmt.Sprintf("midstate table: filled from its own tag: %v, restored by index: %v", okFill, okGet))
+}
+
+func c02InitFuncs(p *core.Program) []*ssa.Function {
+	var out []*ssa.Function
+	if sp := p.SSAPkg("lib/btc"); sp != nil {
+		for n, m := range sp.Members {
+			if f, ok := m.(*ssa.Function); ok && strings.HasPrefix(n, "init#") {
+				out = append(out, f)
+			}
+		}
+	}
+	return out
+}
+
+// c02LeafHash: the tapleaf hash that the taproot digest commits to is computed in VerifyTaprootCommitment
+// as TapLeaf(leaf version, compact size of the script, script), stored through the execution-data pointer,
+// and the stored bytes are not written again: no later Sum/append/copy/store targets memory that may alias
+// the stored slice (the Merkle-root computation continues from a copy of the slice header).
+func c02LeafHash(r *core.Run, p *core.Program) {
+	const rule = "R-C02-bip341"
+	fn := p.Func("lib/script.VerifyTaprootCommitment")
+	if fn == nil || len(fn.Params) < 4 {
+		r.Fail(rule, "leaf-hash", "-", "VerifyTaprootCommitment not found")
+		return
+	}
+	out := fn.Params[3]
+	var stored []*ssa.Store
+	an.Instrs(fn, func(i ssa.Instruction) {
+		if st, ok := i.(*ssa.Store); ok && st.Addr == ssa.Value(out) {
+			stored = append(stored, st)
+		}
+	})
+	if len(stored) != 1 {
+		r.Fail(rule, "leaf-hash/definition", p.Pos(fn.Pos()), fmt.Sprintf("the leaf hash is stored %d times, once expected", len(stored)))
+		return
+	}
+	// definition: the stored value is Sum(nil) of a TapLeaf hasher fed with version&0xfe, vlen(len(script)), script
+	okDef := false
+	if sum, ok := stored[0].Val.(*ssa.Call); ok && sum.Call.IsInvoke() && sum.Call.Method.Name() == "Sum" && an.Expr(sum.Call.Args[0]) == "nil" {
+		h := sum.Call.Value
+		var seq []string
+		for _, b := range fn.Blocks {
+			for _, ins := range b.Instrs {
+				c, ok := ins.(*ssa.Call)
+				if !ok || c == sum {
+					continue
+				}
+				if c.Call.IsInvoke() && c.Call.Value == h && c.Call.Method.Name() == "Write" {
+					a := c.Call.Args[0]
+					if bs, ok := a.(*ssa.Slice); ok {
+						if al, ok := bs.X.(*ssa.Alloc); ok && strings.HasPrefix(an.TypeName(an.Deref(al.Type())), "[1]") {
+							// one-byte literal: find the stored element
+							for _, ref := range *al.Referrers() {
+								if ia, ok := ref.(*ssa.IndexAddr); ok {
+									for _, rr := range *ia.Referrers() {
+										if st, ok := rr.(*ssa.Store); ok {
+											seq = append(seq, "byte:"+an.Expr(st.Val))
+										}
+									}
+								}
+							}
+							continue
+						}
+					}
+					seq = append(seq, "bytes:"+an.Expr(a))
+				}
+				if an.CallName(c) == "lib/btc.WriteVlen" && len(c.Call.Args) == 2 && c02Strip(c.Call.Args[0]) == h {
+					seq = append(seq, "vlen:"+an.Expr(c.Call.Args[1]))
+				}
+			}
+		}
+		got := strings.Join(seq, " | ")
+		want := "byte:(param#0[0] & 254) | vlen:uint64(builtin.len(param#2)) | bytes:param#2"
+		okDef = got == want
+		if !okDef {
+			r.Fail(rule, "leaf-hash/definition", p.Pos(stored[0].Pos()), "the leaf hash is computed over ["+got+"], BIP341 defines ["+want+"]")
+		}
+		// the hasher is the TapLeaf one
+		hn := ""
+		if hc, ok := h.(*ssa.Call); ok && an.CallName(hc) == "lib/btc.Hasher" {
+			hn = an.Expr(hc.Call.Args[0])
+		}
+		want2 := c02ConstVal(p, "lib/btc", "HASHER_TAPLEAF")
+		if okDef && (hn == "" || hn != want2) {
+			okDef = false
+			r.Fail(rule, "leaf-hash/definition", p.Pos(stored[0].Pos()), "the leaf hash is not computed with the TapLeaf tagged hasher (hasher id "+hn+", TapLeaf is "+want2+")")
+		}
+	} else {
+		r.Fail(rule, "leaf-hash/definition", p.Pos(stored[0].Pos()), "the stored leaf hash is not a fresh Sum(nil) of a hasher")
+	}
+	if okDef {
+		r.OK(rule, "leaf-hash/definition", p.Pos(stored[0].Pos()), "TapLeaf(version & 0xfe | compact size | script), fresh Sum(nil)")
+	}
+	// stability: may-alias closure of the stored slice
+	alias := map[ssa.Value]bool{stored[0].Val: true}
+	for changed := true; changed; {
+		changed = false
+		an.Instrs(fn, func(i ssa.Instruction) {
+			v, ok := i.(ssa.Value)
+			if !ok || alias[v] {
+				return
+			}
+			switch x := i.(type) {
+			case *ssa.UnOp:
+				if x.Op == token.MUL && x.X == ssa.Value(out) {
+					alias[v], changed = true, true
+				}
+			case *ssa.Slice:
+				if alias[x.X] {
+					alias[v], changed = true, true
+				}
+			case *ssa.Phi:
+				for _, e := range x.Edges {
+					if alias[e] {
+						alias[v], changed = true, true
+					}
+				}
+			case *ssa.ChangeType:
+				if alias[x.X] {
+					alias[v], changed = true, true
+				}
+			}
+		})
+	}
+	ti := an.NewTermInterp(p, an.TermCfg{})
+	var bad []string
+	an.Instrs(fn, func(i ssa.Instruction) {
+		switch x := i.(type) {
+		case *ssa.Store:
+			if ia, ok := x.Addr.(*ssa.IndexAddr); ok && alias[ia.X] {
+				bad = append(bad, "element store at "+p.Pos(x.Pos()))
+			}
+		case *ssa.Call:
+			if x == stored[0].Val {
+				return
+			}
+			for ai, a := range x.Call.Args {
+				if !alias[a] {
+					continue
+				}
+				w := false
+				switch {
+				case x.Call.IsInvoke():
+					w = x.Call.Method.Name() == "Sum" || x.Call.Method.Name() == "Read"
+				case an.CallName(x) == "builtin.copy" || an.CallName(x) == "builtin.append":
+					w = ai == 0
+				default:
+					if cal := an.StaticCallee(x); cal != nil && core.InModule(cal) {
+						w = ti.WritesParam(cal, ai)
+					} else {
+						n := an.CallName(x)
+						w = n == "crypto/rand.Read" || n == "io.ReadFull" || n == "encoding/hex.Decode" || strings.Contains(n, ").Put")
+					}
+				}
+				if w {
+					bad = append(bad, c02CallLabel(x)+" at "+p.Pos(x.Pos())+" may write into it")
+				}
+			}
+		}
+	})
+	sort.Strings(bad)
+	r.Check(len(bad) == 0, rule, "leaf-hash/stable", p.Pos(fn.Pos()), fmt.Sprintf("%d values may alias the stored leaf hash; none is the destination of a write", len(alias)), "the bytes of the stored leaf hash can be overwritten after they were computed: "+strings.Join(bad, "; "))
+}
+
+func c02ConstVal(p *core.Program, pkg, name string) string {
+	if pk := p.Pkg(pkg); pk != nil {
+		if o := pk.Types.Scope().Lookup(name); o != nil {
+			if c, ok := o.(*types.Const); ok {
+				return c.Val().ExactString()
+			}
+		}
+	}
+	return "?"
 }
 
 var listOf = map[string]string{"hashPrevouts": "in:tx.TxIn^", "hashSequence": "in:tx.TxIn^", "hashOutputs": "in:tx.TxOut^"}
@@ -773,5 +1053,27 @@ func c02Legacy(r *core.Run, p *core.Program) {
 		r.Check(okSel, rule, "digest-selection", p.Pos(pc.Pos()), "BIP143 digest (with the spent amount) for witness v0, legacy digest otherwise", "the digest function is not selected by the signature version, or the amount is not passed")
 	} else {
 		r.Fail(rule, "checker", "-", "pre-tapscript checksig evaluation not found")
+	}
+}
+
+func c02CallLabel(c *ssa.Call) string {
+	if c.Call.IsInvoke() {
+		return "method " + c.Call.Method.Name()
+	}
+	return an.CallName(c)
+}
+
+func c02Strip(v ssa.Value) ssa.Value {
+	for {
+		switch x := v.(type) {
+		case *ssa.ChangeInterface:
+			v = x.X
+		case *ssa.MakeInterface:
+			v = x.X
+		case *ssa.ChangeType:
+			v = x.X
+		default:
+			return v
+		}
 	}
 }
